@@ -254,6 +254,18 @@ CASES = [
     ("m-c08-313-gets-312-table", "C08", "fire", "xdis/op_imports.py", "    \"3.13.0rc3\": opcode_313,", "    \"3.13.0rc3\": opcode_312,", "magic=3571"),
     ("m-c09-31-extended-arg-144", "C09", "fire", "xdis/opcodes/opcode_31.py", "def_op(loc, \"EXTENDED_ARG\", 143)", "def_op(loc, \"EXTENDED_ARG\", 144)", "EXTENDED_ARG-number-shift"),
     ("m-c04-labels-memoised", "C04", "fire", "xdis/wordcode.py", "def findlabels(code, opc):", "import functools\n\n\n@functools.lru_cache(maxsize=64)\ndef findlabels(code, opc):", "C18-R3:memoised-result"),
+    ("m-c12-no-line-column-for-2.0", "C12", "fire", "xdis/bytecode.py", "show_lineno = line_starts is not None or self.opc.version_tuple < (2, 3)", "show_lineno = line_starts is not None or self.opc.version_tuple < (2, 0)", "row-shows-line"),
+    ("s-c12-line-column-width-4", "C12", "silent", "xdis/bytecode.py", "lineno_width = 3 if show_lineno else 0", "lineno_width = 4 if show_lineno else 0", ""),
+    ("m-c14-dump-depth-never-reset", "C14", "fire", "xdis/marsh.py", "    def dump(self, x):\n        if (\n            isinstance(x, types.CodeType)",
+     "    def dump(self, x):\n        self._depth = getattr(self, \"_depth\", 0) + 1\n        if self._depth > 1 and isinstance(x, (list, dict, set)):\n            raise ValueError(\"object too deeply nested to marshal\")\n        if (\n            isinstance(x, types.CodeType)", "accepted-each-time"),
+    ("m-c16-check-all-posonly-refused", "C16", "fire", "xdis/codetype/code310.py", "                ), \"%s should have type %s; is type %s\" % (field, fieldtype, type(val))\n                pass\n            pass\n",
+     "                ), \"%s should have type %s; is type %s\" % (field, fieldtype, type(val))\n                pass\n            pass\n        assert self.co_posonlyargcount < self.co_argcount or self.co_argcount == 0\n", "accepts:def f(a, /)"),
+    ("m-c16-replace-shallow-copy", "C16", "fire", "xdis/codetype/code13.py", "        code = deepcopy(self)", "        import copy as _c\n        code = _c.copy(self)", "copy-shares-no-mutable-field"),
+    ("m-c17-exception-rows-in-default-list", "C17", "fire", "xdis/cross_dis.py", "def format_exception_table(bytecode, version_tuple) -> str:\n    if version_tuple < (3, 11) or not hasattr(bytecode, \"exception_entries\"):\n        return \"\"\n    lines: List[str] = [\"ExceptionTable:\"]",
+     "def format_exception_table(bytecode, version_tuple, lines=[\"ExceptionTable:\"]) -> str:\n    if version_tuple < (3, 11) or not hasattr(bytecode, \"exception_entries\"):\n        return \"\"", "rows:listing-2"),
+    ("m-c18-graal-magics-filter-object", "C18", "fire", "xdis/magics.py", "GRAAL3_MAGICS = (21150, 21280)", "GRAAL3_MAGICS = filter(None, (21150, 21280))", "one-shot-iterator"),
+    ("m-c18-opnames-alias-edited", "C18", "fire", "xdis/bytecode.py", "        output = StringIO()\n        if self.opc.version_tuple > (2, 0):", "        output = StringIO()\n        self.opnames[0] = \"STOP_CODE\"\n        if self.opc.version_tuple > (2, 0):", "xdis.opcodes.*.opname"),
+    ("m-c20-labels-memoised", "C20", "fire", "xdis/cross_dis.py", "def findlabels(code, opc):", "import functools\n\n\n@functools.lru_cache(maxsize=64)\ndef findlabels(code, opc):", "C18-R3:memoised-result"),
     ("m-c02-table-cache-ignores-flavour", "C02", "fire", "xdis/op_imports.py", "    if variant is None:\n        try:\n            import platform",
      "    if vers_str in _seen_tables:\n        return _seen_tables[vers_str]\n    _key = vers_str\n    if variant is None:\n        try:\n            import platform", ""),
 ]
